@@ -799,3 +799,4 @@ RENAME_FUNCS = [(F, 'ABCTune._apply_broken_rhythm'), (F, 'parse_abc_tunebook'), 
                 (F, 'ABCTune._parse_information_field'), (F, 'ABCTune.__init__')]
 
 EXPLANATION += (' Location-independent additions: RHYTHM/boundary (path-wise values of both note boundaries compared in rational normal form with the ABC rule), MODE/accidental-absolute (K: accidentals assigned, not incremented).')
+EXPLANATION += (' Round 6: ' + 'TUNES/blank-line-separation (no cut at a literal newline sequence; lines come from splitlines and are stripped before the emptiness test); TEMPO/bare-unit-current (path-wise: without a beat length the qpm reads the current unit note length, not a snapshot attribute other methods do not refresh).')
